@@ -23,6 +23,7 @@ func init() { core.Register("C16", "model_checking", run) }
 type state struct {
 	root protoreflect.Message
 	dyn  protoreflect.MessageType
+	twin protoreflect.Message // lazy system only: eager dynamicpb message mutated in lock-step (observing root would expand it)
 }
 
 func fld(m protoreflect.Message, n int) protoreflect.FieldDescriptor {
@@ -299,8 +300,68 @@ func extOps() []hist.Op[*state] {
 	}
 }
 
+// lazyOps is the alphabet of the third system: the root is DECODED (lazy
+// decoding on) from the bytes of a three-level lazy tree root -> a -> b, so the
+// submessages start unexpanded; operations expand a level (Get), mutate a level
+// and interleave Size / Marshal / Marshal{Deterministic}.
+func lazyOps() []hist.Op[*state] {
+	type S = *state
+	mk := func(name string, f func(c *core.Ctx, s S, h string)) hist.Op[S] { return hist.Op[S]{Name: name, Do: f} }
+	nested := func(m protoreflect.Message) protoreflect.FieldDescriptor { return fld(m, 99) }
+	level := func(m protoreflect.Message, depth int) protoreflect.Message {
+		for i := 0; i < depth; i++ {
+			m = m.Mutable(nested(m)).Message()
+		}
+		return m
+	}
+	// mutate applies f to the same level of the real message and of its eager twin
+	mutate := func(name string, depth int, f func(m protoreflect.Message)) hist.Op[S] {
+		return mk(name, func(c *core.Ctx, s S, h string) {
+			f(level(s.root, depth))
+			f(level(s.twin, depth))
+		})
+	}
+	marshal := func(name string, o proto.MarshalOptions) hist.Op[S] {
+		return mk(name, func(c *core.Ctx, s S, h string) {
+			bs, err := o.Marshal(s.root.Interface())
+			if err != nil {
+				c.Violation(fmt.Sprintf("%s returns error: %s", name, h), err.Error())
+				return
+			}
+			if n := o.Size(s.root.Interface()); n != len(bs) {
+				c.Violation(fmt.Sprintf("%s: Size=%d != len(Marshal)=%d: %s", name, n, len(bs), h), nil)
+			}
+			d := s.dyn.New()
+			if err := (proto.UnmarshalOptions{AllowPartial: true}).Unmarshal(bs, d.Interface()); err != nil {
+				c.Violation(fmt.Sprintf("%s output does not decode: %s", name, h), err.Error())
+				return
+			}
+			if want, got := univ.Snapshot(s.twin), univ.Snapshot(d); want != got {
+				c.Violation(fmt.Sprintf("%s output is stale: %s", name, h), map[string]any{"content": want, "decoded": got, "bytes": fmt.Sprintf("%x", bs)})
+			}
+		})
+	}
+	return []hist.Op[S]{
+		mk("Get(a)", func(c *core.Ctx, s S, h string) { s.root.Get(nested(s.root)).Message().IsValid() }),
+		mk("Get(b)", func(c *core.Ctx, s S, h string) {
+			x := s.root.Get(nested(s.root)).Message()
+			x.Get(nested(x)).Message().IsValid()
+		}),
+		mutate("a.string=big", 1, func(m protoreflect.Message) { m.Set(fld(m, 14), protoreflect.ValueOfString(big)) }),
+		mutate("a.clear(string)", 1, func(m protoreflect.Message) { m.Clear(fld(m, 14)) }),
+		mutate("a.int32=7", 1, func(m protoreflect.Message) { m.Set(fld(m, 1), protoreflect.ValueOfInt32(7)) }),
+		mutate("b.int32=-1", 2, func(m protoreflect.Message) { m.Set(fld(m, 1), protoreflect.ValueOfInt32(-1)) }),
+		mutate("b.clear(int32)", 2, func(m protoreflect.Message) { m.Clear(fld(m, 1)) }),
+		mutate("root.int32=1", 0, func(m protoreflect.Message) { m.Set(fld(m, 1), protoreflect.ValueOfInt32(1)) }),
+		mk("Size(root)", func(c *core.Ctx, s S, h string) { proto.Size(s.root.Interface()) }),
+		mk("Size(a)", func(c *core.Ctx, s S, h string) { proto.Size(s.root.Get(nested(s.root)).Message().Interface()) }),
+		marshal("Marshal(root)", proto.MarshalOptions{AllowPartial: true}),
+		marshal("Marshal{Deterministic}(root)", proto.MarshalOptions{AllowPartial: true, Deterministic: true}),
+	}
+}
+
 func run(c *core.Ctx) {
-	c.Rule = "explicit-state BFS over histories of 27 operations (leaf/mid/list-element/map-value/oneof-member mutations that change encoded length incl. across the 127/128 length-prefix boundary and that empty a child in place; Size at three levels; Marshal default/Deterministic/Append (full and with spare capacity)/UseCachedSize-after-Size/through a dynamicpb parent holding the message; Clone/Equal) on a real three-level message in open, hybrid, opaque and proto3 flavors, and a second system of 15 operations on an extendable root whose singular, repeated and group message-typed extension values (and an extension inside a grandchild) are mutated between Size / Marshal / Marshal{Deterministic} / UseCachedSize calls; state key = canonical content + every size-cache word read by reflection; in every state reached by a Marshal transition the output must decode (independent dynamicpb decoder) to the current content"
+	c.Rule = "explicit-state BFS over histories of 27 operations (leaf/mid/list-element/map-value/oneof-member mutations that change encoded length incl. across the 127/128 length-prefix boundary and that empty a child in place; Size at three levels; Marshal default/Deterministic/Append (full and with spare capacity)/UseCachedSize-after-Size/through a dynamicpb parent holding the message; Clone/Equal) on a real three-level message in open, hybrid, opaque and proto3 flavors, and a second system of 15 operations on an extendable root whose singular, repeated and group message-typed extension values (and an extension inside a grandchild) are mutated between Size / Marshal / Marshal{Deterministic} / UseCachedSize calls, and a third system of 12 operations (every history of <=4, thorough 5, its own state) on a three-level lazy tree that is DECODED lazily: expanding a level, mutating a level, Size, Marshal, Marshal{Deterministic}; state key = canonical content + every size-cache word read by reflection; in every state reached by a Marshal transition the output must decode (independent dynamicpb decoder) to the current content"
 	depth := core.Pick(c, 5, 7)
 	c.Bounds["depth"] = depth
 	var out []map[string]any
@@ -339,6 +400,36 @@ func run(c *core.Ctx) {
 		r := hist.BFS(c, sys, depth)
 		out = append(out, map[string]any{"type": name, "alphabet": "message-typed extension values", "operations": len(sys.Ops), "depth": depth, "states": r.States, "transitions": r.Transitions, "max_depth": r.MaxDepth, "frontier_exhausted": r.FrontierExhausted})
 		c.DistinctN(int64(r.States))
+		if c.Expired() {
+			exhaust = false
+		}
+	}
+	for _, name := range []string{"opaque.lazy_tree.Node", "hybrid.lazy_tree.Node"} {
+		mt := univ.MT(name)
+		// root{int32:5, nested a{int32:6, string:"s", nested b{int32:7}}}
+		bb := []byte{0x08, 0x07}
+		ab := append([]byte{0x08, 0x06, 0x72, 0x01, 's', 0x9a, 0x06, byte(len(bb))}, bb...)
+		rb := append([]byte{0x08, 0x05, 0x9a, 0x06, byte(len(ab))}, ab...)
+		sys := &hist.System[*state]{
+			Name: name + " (decoded lazily)",
+			New: func() *state {
+				m := mt.New()
+				if err := proto.Unmarshal(rb, m.Interface()); err != nil {
+					panic(err)
+				}
+				dt := dynamicpb.NewMessageType(mt.Descriptor())
+				tw := dt.New()
+				if err := proto.Unmarshal(rb, tw.Interface()); err != nil {
+					panic(err)
+				}
+				return &state{root: m, dyn: dt, twin: tw}
+			},
+			Ops: lazyOps(),
+		}
+		d := core.Pick(c, 4, 5)
+		r := hist.BFS(c, sys, d)
+		out = append(out, map[string]any{"type": name, "alphabet": "lazily decoded three-level tree (every history its own state)", "operations": len(sys.Ops), "depth": d, "histories": r.Transitions})
+		c.DistinctN(int64(r.Transitions))
 		if c.Expired() {
 			exhaust = false
 		}
